@@ -36,6 +36,7 @@ def dispatch (op : String) (args : List String) : Option String :=
       | .rejected => "rej"
       | .encFails => "encfail"
       | .ok enc _ => s!"size={enc.length} enc={toHex enc}"
+  | "box.registered", [] => some (" ".intercalate (Generated.decoderKeys.map fun k => toHex (k.toList.map fun c => c.toNat % 256)))
   | "box.types", [] => some (" ".intercalate (specs.map (·.1)))
   | _, _ => none
 
